@@ -42,7 +42,7 @@ ASSUMPTIONS = [
 ]
 CASES = {'quick': 1700, 'thorough': 26000}
 TIME = {'quick': 75, 'thorough': 560}
-MIN_NONTRIVIAL = {'quick': 1500, 'thorough': 10000}
+MIN_NONTRIVIAL = {'quick': 800, 'thorough': 6000}
 REQUIRED = ('imports_compared', 'headsup_imports', 'showdown_imports',
             'reraise_hands', 'allin_hands', 'decimal_hands',
             'corruptions_checked', 'multi_hand_texts',
